@@ -17,6 +17,7 @@
                                                   is about a genuinely impossible condition: the answer would be 0/0)
     * `idcstar_line1_passes_iff`                 line 1 lets exactly the non-Zero / unidentifiable conditions through
     * `idcstar_zero_of_inconsistent`             line 3: 'inconsistent' joint event ⇒ Zero
+    * `idcstar_zero_line3_sound`                 … and then the joint event has probability 0 in every compatible functional SCM
     * `idcstar_fuel_mono`                        more fuel never changes an answer that was reached
     * `idcstar_division_modelled`                ID* never returns a Fraction: the modelled division covers every case
     * vocabulary (C06 part) `idcstar_vocab`      every leaf of a returned estimand is a single-world term
@@ -28,7 +29,8 @@
   --     planned reduction (DESIGN §4 C08): `conditional_den` (C13; false today: F11) + `idstar_sound` (C07; false today: F10)
   --     + soundness of the exchange step (rule 2 of the do-calculus on the counterfactual graph, via d-separation C04).
   --   theorem idcstar_zero_sound : idcStar … = .ok .zero → … → probEvent M ν (outs ++ conds) = 0
-  --     proved only for Zero coming from ID*'s line 2 on the joint event (C07) — Zero from line 3 is C18's partial theorem.
+  --     proved for Zero from line 3 (`idcstar_zero_line3_sound`) and for Zero coming from ID*'s lines 2 and 5 (C07); Zero from
+  --     deeper inside ID* is open (false today: F10/M5).
   --   theorem idcstar_terminates : idcStar … ≠ .error (.internal "fuel")
   --     the exchange step removes one condition but the re-association of merged nodes may add keys to both dicts; no
   --     decreasing measure has been proved.  Checked on every generated input by the correspondence.
@@ -87,6 +89,20 @@ theorem idcstar_zero_of_inconsistent (fuel : Nat) (outcomes conditions : Event) 
   rw [h1]
   simp only
   rw [h2]
+
+open Fscm in
+/-- … and that Zero is a sound answer (by C18's `cg_prob`): the joint event has probability 0 in every functional SCM
+compatible with the graph (hypotheses as in `cg_prob`, for the merged dict `outcomes | conditions`) -/
+theorem idcstar_zero_line3_sound (M : Model) (ν : BaseValues) (hν : ν.Distinct) (hM : Compatible M G) (hG : G.WF)
+    (hdl : ∀ e ∈ G.di, e.1 ≠ e.2) (hbl : ∀ e ∈ G.bi, e.1 ≠ e.2) (outcomes conditions : Event)
+    (hev : EvOK (Event.ofList (outcomes ++ conditions))) (topo : List Name)
+    (htopo : G.topologicalSort = .ok topo) (hpf : ∀ v, ∀ p ∈ M.pa v, Before topo v p)
+    (hws : (ordf (extractInterventions (Event.ofList (outcomes ++ conditions)).keys)).Nodup)
+    (hwne : ∀ w ∈ ordf (extractInterventions (Event.ofList (outcomes ++ conditions)).keys), w ≠ [])
+    (hwcs : ∀ w ∈ ordf (extractInterventions (Event.ofList (outcomes ++ conditions)).keys), ConsistentSubs w) (g : MG Var)
+    (h : makeCounterfactualGraph ordf G (Event.ofList (outcomes ++ conditions)) = .ok (g, none)) :
+    probEvent M ν (Event.ofList (outcomes ++ conditions)) = 0 :=
+  (cg_prob M ν hν G hM hG hdl hbl ordf _ hev topo htopo hpf hws hwne hwcs).2 g h
 
 /-- more fuel never changes an answer that was reached -/
 theorem idcstar_fuel_mono (fuel k : Nat) (outcomes conditions : Event) (x : Expr)
